@@ -190,4 +190,6 @@ let () =
   port "find_config" (fun r ->
     let dirs = rd_list (rd_list (fun r -> let n = rd_name r in
       let st = (match rd_int r with 0 -> CAbsent | 1 -> CPlain | 2 -> CPyprojectWithSection | _ -> CPyprojectWithoutSection) in (n, st))) r in
-    wr_opt (fun (d, n) -> wr_int (int_of_nat d); wr_name n) (find_config dirs O))
+    wr_opt (fun (d, n) -> wr_int (int_of_nat d); wr_name n) (find_config dirs O));
+  port "smart_quotes" (fun r -> wr_m wr_str (smart_quotes (rd_str r)));
+  port "ellipses" (fun r -> wr_m wr_str (ellipses (rd_str r)))
